@@ -34,6 +34,14 @@ if [ "$1" = "C20" ]; then
         tail -40 "$here/cli-build.log" >&2
         exit 2
     fi
+    # the libc-level fault shim for the child process
+    if [ ! -f "$here/target/shim.so" ] || [ "$here/shim.c" -nt "$here/target/shim.so" ]; then
+        if ! clang -shared -fPIC -O1 -o "$here/target/shim.so" "$here/shim.c" -ldl >"$here/shim-build.log" 2>&1; then
+            echo "HARNESS ERROR: sim/shim.c does not build" >&2
+            cat "$here/shim-build.log" >&2
+            exit 2
+        fi
+    fi
 fi
 cd "$here/.." || exit 2
 exec "$here/target/release/check" "$@"
